@@ -13,7 +13,7 @@ structure St where
   listing : Listing := {}
   strayPresent : Bool := false
   damaged : Bool := false            -- a recorded fragment was corrupted or removed behind the dump's back
-  srcChanged : Bool := false         -- a graph already counted by the checkpoint changed
+  delta : List (String × Int × Int) := []  -- per graph: net change of (nodes, relationships) of the source since the fresh dump
   expectSame : Bool := false         -- the directory is a finished dump: `final` must answer `same`
 
 def setField (m : List (String × String)) (k v : String) : List (String × String) := (k, v) :: m.filter (·.1 != k)
@@ -80,6 +80,16 @@ def counted (st : St) (g : String) : Bool :=
     | _ => true
   | _, _ => false
 
+def bump (m : List (String × Int × Int)) (g : String) (dn de : Int) : List (String × Int × Int) :=
+  match m.find? (·.1 == g) with
+  | some (_, a, b) => (g, a + dn, b + de) :: m.filter (·.1 != g)
+  | none => (g, dn, de) :: m
+
+/-- a graph the checkpoint already counts (completed, or in progress with a snapshot) whose source changed in
+at least ONE of the two dimensions since the interrupted dump -/
+def changedCounted (st : St) : Option String :=
+  (st.delta.find? (fun (g, dn, de) => (dn != 0 || de != 0) && counted st g)).map (·.1)
+
 def step (st : St) (ts : List String) : St × String :=
   let (op, out) := splitArrow ts
   match op, out with
@@ -104,7 +114,10 @@ def step (st : St) (ts : List String) : St × String :=
                  listing := { st.listing with entries := es } }, "ok")
     else (st, "reject bad-output")
   | [_, _], ["none"] => (st, "ok")
-  | ["srcadd", g, _], ["ok"] => ({ st with srcChanged := st.srcChanged || counted st g, expectSame := false }, "ok")
+  | ["srcadd", g, _], ["ok"] => ({ st with delta := bump st.delta g 1 0, expectSame := false }, "ok")
+  | ["srcaddedge", g, _, _, _], ["ok"] => ({ st with delta := bump st.delta g 0 1, expectSame := false }, "ok")
+  | ["srcdelnode", g, _], ["ok"] => ({ st with delta := bump st.delta g (-1) 0, expectSame := false }, "ok")
+  | ["srcdeledge", g, _], ["ok"] => ({ st with delta := bump st.delta g 0 (-1), expectSame := false }, "ok")
   | ["final"], ans :: _ =>
     let st' := { st with expectSame := false }
     if ans == "same" then (st', "ok")
@@ -118,7 +131,7 @@ def step (st : St) (ts : List String) : St × String :=
     | none => (st, "reject bad-observation")
     | some (status, l) =>
       let completed := status == ["completed"] || status == ["ok"]
-      let base : St := if fresh then { st with dumpOpts := st.opts, strayPresent := false, damaged := false, srcChanged := false } else st
+      let base : St := if fresh then { st with dumpOpts := st.opts, strayPresent := false, damaged := false, delta := [] } else st
       let st' := { base with listing := l, expectSame := completed }
       let checks : List (Option String) :=
         [ (if resumed && st.damaged then none else manifestMeansComplete l),   -- the harness itself damaged a recorded fragment
@@ -129,7 +142,7 @@ def step (st : St) (ts : List String) : St × String :=
             then some "resume-refused-although-no-bound-option-changed" else none),
           if resumed && completed && st.strayPresent then some "resume-accepted-unexpected-file" else none,
           if resumed && completed && st.damaged then some "resume-accepted-damaged-fragment" else none,
-          if resumed && completed && st.srcChanged then some "resume-accepted-changed-source" else none,
+          (if resumed && completed then (changedCounted st).map (fun g => "resume-accepted-changed-source " ++ g) else none),
           if fresh && status.head? == some "refused" then some "fresh-dump-refused" else none,
           if completed then finishedDump l else none ]
       match firstSome checks with
